@@ -6,7 +6,8 @@ EXPLANATION = ('Bounded symbolic checking of the real TimexResolver / TimexValue
                'independently of datetime.')
 ASSUMPTIONS = ['Timex objects are built from fields (Timex(year=..)), the string->field step is covered by C14',
                'reference dates 1950..2090; years 1..9998 for year/month ranges']
-OUTSIDE = ['TIMEX strings that the datatype regexes parse into other field combinations than the ones listed']
+OUTSIDE = ['TIMEX strings that the datatype regexes parse into other field combinations than the ones listed',
+           'range resolver: month-day / time / duration candidates, several constraints, time-range constraints (only the single date range + weekday clause is built)']
 
 R = 'datatypes_timex_expression.timex_resolver:TimexResolver.'
 
@@ -49,4 +50,16 @@ def obligations(tier):
                   descr='the real fixed_format_number renders n as exactly `size` decimal digits (the other obligations stub it by markers)',
                   bounds='0 <= n < 10^size, size 1..4',
                   encodes=['datatypes_timex_expression.timex_date_helpers:TimexDateHelpers.fixed_format_number']))
+    rs = [{'ndays': 7, 'wd': 7}, {'ndays': 10, 'wd': 3}] if tier == 'quick' else [{'ndays': n, 'wd': w} for n in (7, 14, 21) for w in range(1, 8)]
+    obs.append(Ob('O15.5-weekday-in-range', 'sx', 'harness.C15r:h_weekday_in_range', twin='harness.C15r:t_weekday_in_range', slices=rs, timeout=max(t, 240),
+                  descr='TimexRangeResolver.evaluate, one date-range constraint + weekday candidate: only definite instances inside the range, and every such day',
+                  bounds='range start = every day 1951..2089 (symbolic day number, written into the constraint string as digit placeholders); length 7/10 days (thorough 7/14/21); weekday per slice',
+                  encodes=['datatypes_timex_expression.timex_range_resolver:TimexRangeResolver.evaluate',
+                           'datatypes_timex_expression.timex_range_resolver:TimexRangeResolver.resolve_by_date_range_constraints',
+                           'datatypes_timex_expression.timex_range_resolver:TimexRangeResolver.resolve_date_against_constraint',
+                           'datatypes_timex_expression.timex_date_helpers:TimexDateHelpers.dates_matching_day',
+                           'datatypes_timex_expression.timex_helpers:TimexHelpers.expand_datetime_range',
+                           'datatypes_timex_expression.timex_helpers:TimexHelpers.timex_date_add',
+                           'datatypes_timex_expression.timex_constraints_helper:TimexConstraintsHelper.collapse'],
+                  engine='symx symbolic execution (lib/symx.py + lib/symdate.py), z3 per branch'))
     return obs
